@@ -142,6 +142,16 @@ func (c *StructCase) callWith(src interface{}, unscoped valid.RM, perType map[st
 			return valid.StructForFn(src, unscoped, c.Tag)
 		}
 		return valid.StructForFn(src, unscoped)
+	case "ValidStructForRule":
+		if c.Tag != "" {
+			return valid.ValidStructForRule(unscoped, src, c.Tag)
+		}
+		return valid.ValidStructForRule(unscoped, src)
+	case "ValidStructForMyValidFn":
+		if c.Tag != "" {
+			return valid.ValidStructForMyValidFn(src, c.CallFns[0], perCallFn(c.CallFns[0]), c.Tag)
+		}
+		return valid.ValidStructForMyValidFn(src, c.CallFns[0], perCallFn(c.CallFns[0]))
 	case "StructForFns":
 		fm := valid.Name2FnMap{}
 		for _, n := range c.CallFns {
@@ -351,7 +361,7 @@ func genScalarCall(t *rapid.T, mg *msgGen) *ScalarCase {
 	if (c.Carrier == "map" || c.Carrier == "url") && rapid.IntRange(0, 5).Draw(t, "missing") == 0 {
 		c.Missing = true
 	}
-	c.T = maybeNamedDeep(t, c.T)
+	finishScalar(t, c)
 	return c
 }
 
